@@ -126,7 +126,7 @@ def audit_axioms(prop, theorems):
 
 
 # further statement files that belong to a property (extensions proved later: pointer/radix-tree refinements, progress)
-EXTRA_PROPS = {"C05": ["C05rat"], "C07": ["C07progress", "C07tmo"], "C16": ["C16ptr"], "C18": ["C18tls"], "C06": ["C06list"], "C08": ["C08loop"], "C15": ["C15poll", "C15epoll"]}
+EXTRA_PROPS = {"C04": ["C04time"], "C05": ["C05rat"], "C07": ["C07progress", "C07tmo"], "C16": ["C16ptr"], "C18": ["C18tls"], "C06": ["C06list"], "C08": ["C08loop"], "C15": ["C15poll", "C15epoll"]}
 
 
 def proof_phase(prop):
